@@ -1,10 +1,10 @@
-(* C04g -- fast_sets.rs (the sparse set of the minimizer): the regenerated translation is a correct finite set and refines the model's insertion-ordered list with swap-remove, for every sequence of operations.
+(* C04g -- fast_sets.rs (the sparse set of the minimizer): the regenerated translation is a correct finite set and refines the model's insertion-ordered list with swap-remove, for every sequence of operations; partitions.rs (BasePartition below refine_block): the regenerated translation is the model's array partition.
    Statements only; every proof is [exact <lemma>].  The statements are about the definitions that
    gen/rs2v.py regenerates from /repo/src on every run (namespace SVG; M_f is the monadic view of
    the Rust function f: None = f panics).  Written by bin/mkgenprops from the lemma statements. *)
 Require Import Base GenBase.
-Require Import Automaton Minimizer.
-From SVG Require Import FastSetGen GenLinkFastSet GenPropsFastSet.
+Require Import Automaton Minimizer HopPart.
+From SVG Require Import FastSetGen GenLinkFastSet GenPropsFastSet BasePartGen GenLinkBasePart GenPropsBasePart.
 Open Scope N_scope.
 
 (* ---- refinement of the model's FastSet (representation invariant inv, abstraction abs) ---- *)
@@ -85,3 +85,167 @@ Theorem C04g_example :
             (M_FastSet_new 100)) = Some [40%nat; 20%nat; 7%nat].
 Proof. exact g_example. Qed.
 Print Assumptions C04g_example.
+
+(* ---- BasePartition: constructor, accessors and the header update of refine_block are the model's bpart (convbp) ---- *)
+
+Theorem C04g_link_new_loop :
+  forall m k : nat,
+       fits (k + m) ->
+       BasePartition_new_loop1 (seq k m) (map N.of_nat (seq 0 k) ++ repeat 0 m) =
+       Some (LoopDone (map N.of_nat (seq 0 (k + m)))).
+Proof. exact link_new_loop. Qed.
+Print Assumptions C04g_link_new_loop.
+
+Theorem C04g_link_new :
+  forall n : N,
+       n < 4294967296 ->
+       exists p : BasePartition, M_BasePartition_new n = Some p /\ convbp p = bp_new (N.to_nat n).
+Proof. exact link_new. Qed.
+Print Assumptions C04g_link_new.
+
+Theorem C04g_link_num_blocks :
+  forall p : BasePartition,
+       fits (length (BasePartition_block p)) ->
+       M_BasePartition_num_blocks p = Some (N.of_nat (bp_num_blocks (convbp p))).
+Proof. exact link_num_blocks. Qed.
+Print Assumptions C04g_link_num_blocks.
+
+Theorem C04g_link_size :
+  forall p : BasePartition,
+       fits (BasePartition_size p) ->
+       M_BasePartition_size_fn p = Some (N.of_nat (BasePartition_size p)).
+Proof. exact link_size. Qed.
+Print Assumptions C04g_link_size.
+
+Theorem C04g_link_index :
+  forall p : BasePartition,
+       fits (length (BasePartition_block p)) ->
+       (1 <= length (BasePartition_block p))%nat ->
+       M_BasePartition_index p = Some (N.of_nat (bp_num_blocks (convbp p) - 1)).
+Proof. exact link_index. Qed.
+Print Assumptions C04g_link_index.
+
+Theorem C04g_link_block_size :
+  forall (p : BasePartition) (i : N) (h : BlockHeader),
+       nth_error (BasePartition_block p) (N.to_nat i) = Some h ->
+       (BlockHeader_start h <= BlockHeader_end h)%nat ->
+       fits (BlockHeader_end h - BlockHeader_start h) ->
+       M_BasePartition_block_size p i = Some (N.of_nat (bp_block_size (convbp p) (N.to_nat i))).
+Proof. exact link_block_size. Qed.
+Print Assumptions C04g_link_block_size.
+
+Theorem C04g_link_smaller_block :
+  forall (p : BasePartition) (i j : N) (hi hj : BlockHeader),
+       nth_error (BasePartition_block p) (N.to_nat i) = Some hi ->
+       nth_error (BasePartition_block p) (N.to_nat j) = Some hj ->
+       (BlockHeader_start hi <= BlockHeader_end hi)%nat ->
+       fits (BlockHeader_end hi - BlockHeader_start hi) ->
+       (BlockHeader_start hj <= BlockHeader_end hj)%nat ->
+       fits (BlockHeader_end hj - BlockHeader_start hj) ->
+       M_BasePartition_smaller_block p i j =
+       Some (bp_block_size (convbp p) (N.to_nat i) <=? bp_block_size (convbp p) (N.to_nat j))%nat.
+Proof. exact link_smaller_block. Qed.
+Print Assumptions C04g_link_smaller_block.
+
+Theorem C04g_link_block_size_oob :
+  forall (p : BasePartition) (i : N),
+       (length (BasePartition_block p) <= N.to_nat i)%nat -> M_BasePartition_block_size p i = None.
+Proof. exact link_block_size_oob. Qed.
+Print Assumptions C04g_link_block_size_oob.
+
+Theorem C04g_link_slice :
+  forall (p : BasePartition) (i : N) (h : BlockHeader),
+       nth_error (BasePartition_block p) (N.to_nat i) = Some h ->
+       (BlockHeader_start h <= BlockHeader_end h <= length (BasePartition_segment p))%nat ->
+       option_map (map N.to_nat) (M_BasePartition_slice p i) =
+       Some (bp_elements (convbp p) (N.to_nat i)).
+Proof. exact link_slice. Qed.
+Print Assumptions C04g_link_slice.
+
+Theorem C04g_link_pick_element :
+  forall (p : BasePartition) (i : N) (h : BlockHeader),
+       0 < i ->
+       nth_error (BasePartition_block p) (N.to_nat i) = Some h ->
+       (BlockHeader_start h < length (BasePartition_segment p))%nat ->
+       option_map N.to_nat (M_BasePartition_pick_element p i) =
+       Some (nth (BlockHeader_start h) (bp_seg (convbp p)) 0%nat).
+Proof. exact link_pick_element. Qed.
+Print Assumptions C04g_link_pick_element.
+
+Theorem C04g_link_pick_element_zero :
+  forall p : BasePartition, M_BasePartition_pick_element p 0 = None.
+Proof. exact link_pick_element_zero. Qed.
+Print Assumptions C04g_link_pick_element_zero.
+
+Theorem C04g_link_add_block :
+  forall (p : BasePartition) (s e : nat),
+       fits (length (BasePartition_block p)) ->
+       exists p' : BasePartition,
+         M_BasePartition_add_block p s e = Some (p', N.of_nat (length (BasePartition_block p))) /\
+         convbp p' = {| bp_block := bp_block (convbp p) ++ [(s, e)]; bp_seg := bp_seg (convbp p) |}.
+Proof. exact link_add_block. Qed.
+Print Assumptions C04g_link_add_block.
+
+Theorem C04g_link_split_block :
+  forall (p : BasePartition) (i : N) (n : nat) (h : BlockHeader),
+       nth_error (BasePartition_block p) (N.to_nat i) = Some h ->
+       fits (length (BasePartition_block p)) ->
+       exists p' : BasePartition,
+         M_BasePartition_split_block p i n = Some (p', N.of_nat (length (BasePartition_block p))) /\
+         convbp p' =
+         {|
+           bp_block :=
+             upd (bp_block (convbp p)) (N.to_nat i)
+               (BlockHeader_start h, (BlockHeader_start h + n)%nat) ++
+             [((BlockHeader_start h + n)%nat, BlockHeader_end h)];
+           bp_seg := bp_seg (convbp p)
+         |}.
+Proof. exact link_split_block. Qed.
+Print Assumptions C04g_link_split_block.
+
+(* ---- the representation invariant bp_wf of the model's proofs, on the translated code ---- *)
+
+Theorem C04g_new_wf :
+  forall n : N,
+       1 <= n < 4294967296 ->
+       exists p : BasePartition,
+         M_BasePartition_new n = Some p /\
+         bp_wf (N.to_nat n) (convbp p) /\
+         (forall x : nat, in_blk (convbp p) 1 x <-> (x < N.to_nat n)%nat).
+Proof. exact g_new_wf. Qed.
+Print Assumptions C04g_new_wf.
+
+Theorem C04g_block_read :
+  forall (n : nat) (p : BasePartition) (i : N),
+       bp_wf n (convbp p) ->
+       N.of_nat n < 4294967296 ->
+       (1 <= N.to_nat i < nblk (convbp p))%nat ->
+       exists (sz : N) (els : list N) (x : N),
+         M_BasePartition_block_size p i = Some sz /\
+         M_BasePartition_slice p i = Some els /\
+         M_BasePartition_pick_element p i = Some x /\
+         N.to_nat sz = length els /\
+         (forall y : N, In y els <-> in_blk (convbp p) (N.to_nat i) (N.to_nat y)) /\ In x els.
+Proof. exact g_block_read. Qed.
+Print Assumptions C04g_block_read.
+
+Theorem C04g_split_block_total :
+  forall (p : BasePartition) (i : N) (n : nat) (h : BlockHeader),
+       nth_error (BasePartition_block p) (N.to_nat i) = Some h ->
+       N.of_nat (length (BasePartition_block p)) < 4294967296 ->
+       exists (p' : BasePartition) (k : N),
+         M_BasePartition_split_block p i n = Some (p', k) /\
+         M_BasePartition_num_blocks p = Some k /\
+         length (BasePartition_block p') = S (length (BasePartition_block p)) /\
+         BasePartition_segment p' = BasePartition_segment p.
+Proof. exact g_split_block_total. Qed.
+Print Assumptions C04g_split_block_total.
+
+Theorem C04g_example_basepart :
+  option_map convbp (M_BasePartition_new 3) =
+       Some {| bp_block := [(0%nat, 0%nat); (0%nat, 3%nat)]; bp_seg := [0%nat; 1%nat; 2%nat] |} /\
+       (do p <- M_BasePartition_new 3;
+        do r <- M_BasePartition_split_block p 1 2; M_BasePartition_slice (fst r) 2) = 
+       Some [2] /\ (do p <- M_BasePartition_new 3; M_BasePartition_pick_element p 0) = None.
+Proof. exact g_example_basepart. Qed.
+Print Assumptions C04g_example_basepart.
